@@ -113,3 +113,53 @@ def is_normalised(loc):
     if len(bl) == 1 and type(loc) is not SingleInterval:
         return False
     return True
+
+
+# ---- gene-level builders --------------------------------------------------------------------------------
+def chrom_parent(genome, name="chrV", alphabet=Alphabet.NT_EXTENDED_GAPPED):
+    from inscripta.biocantor.io.parser import seq_to_parent
+
+    return seq_to_parent(genome, alphabet=alphabet, seq_id=name)
+
+
+def chunk_parent(genome, a, b, name="chrV", alphabet=Alphabet.NT_EXTENDED_GAPPED):
+    from inscripta.biocantor.io.parser import seq_chunk_to_parent
+
+    return seq_chunk_to_parent(genome[a:b], name, a, b, alphabet=alphabet)
+
+
+def frames_enum(fr):
+    from inscripta.biocantor.gene.cds_frame import CDSFrame
+
+    return [CDSFrame(f) for f in fr]
+
+
+def mk_tx(exons, strand, cds=None, frames=None, parent=None, **kw):
+    from inscripta.biocantor.gene.transcript import TranscriptInterval
+
+    ex = sorted(exons)
+    args = dict(
+        exon_starts=[b[0] for b in ex],
+        exon_ends=[b[1] for b in ex],
+        strand=STRAND[strand],
+        parent_or_seq_chunk_parent=parent,
+    )
+    if cds is not None:
+        cb = sorted(cds)
+        args.update(cds_starts=[b[0] for b in cb], cds_ends=[b[1] for b in cb], cds_frames=frames_enum(frames))
+    args.update(kw)
+    return TranscriptInterval(**args)
+
+
+def mk_feat(blocks, strand, parent=None, **kw):
+    from inscripta.biocantor.gene.feature import FeatureInterval
+
+    bl = sorted(blocks)
+    return FeatureInterval([b[0] for b in bl], [b[1] for b in bl], STRAND[strand], parent_or_seq_chunk_parent=parent, **kw)
+
+
+def mk_cds(blocks, strand, frames, parent=None, **kw):
+    from inscripta.biocantor.gene.cds import CDSInterval
+
+    bl = sorted(blocks)
+    return CDSInterval([b[0] for b in bl], [b[1] for b in bl], STRAND[strand], frames_enum(frames), parent_or_seq_chunk_parent=parent, **kw)
